@@ -26,17 +26,17 @@ static void run_and_check(int rule, int form, int ctx, int shape, const act_exp_
 	if (shape >= 1 && idx0 > 0) { keep_at = nondet_uint(); __CPROVER_assume(keep_at < idx0); keep = cfg_qstring[keep_at]; }
 	ret = cfgv_action(rule, &h_cfg);
 	g_rules_seen++;
-	CHECK("C03,C15", ret == e->ret, "the action returns the token kind of its lexical form (or continues scanning)");
+	CHECK("C03,C15,C01", ret == e->ret, "the action returns the token kind of its lexical form (or continues scanning)");
 	CHECK("C08,C03", LEX_CTX_NOW == e->ctx_after, "the scanner context after the action is the one the form prescribes");
 	if (ret != CFGV_CONTINUE) CHECK("C08", LEX_CTX_NOW == LC_TOP, "every action that returns a token leaves the scanner at top level");
 	CHECK("C06", h_cfg.line == in_line0 + spec_newlines((const unsigned char *)in_tok, in_toklen), "the line counter advances by exactly the number of newline bytes in the token");
 	CHECK("C06", (g_diag >= 1) == (ret == 0), "a diagnostic is delivered exactly when the error token is returned");
 	CHECK("C02", g_stdout_writes == 0, "nothing is written to standard output");
 	if (e->nappend >= 0) {
-		CHECK("C03,C05", qstring_index == idx0 + (unsigned)e->nappend, "the action appends exactly as many bytes as the reference decoding has");
+		CHECK("C03,C05,C01", qstring_index == idx0 + (unsigned)e->nappend, "the action appends exactly as many bytes as the reference decoding has");
 		if (qstring_index == idx0 + (unsigned)e->nappend)
 			for (int j = 0; j < TOKN + 1; j++)
-				if (j < e->nappend) CHECK("C03,C05", (unsigned char)cfg_qstring[idx0 + j] == e->append[j], "the appended bytes are the reference decoding of the token text");
+				if (j < e->nappend) CHECK("C03,C05,C01", (unsigned char)cfg_qstring[idx0 + j] == e->append[j], "the appended bytes are the reference decoding of the token text");
 		if (shape >= 1 && idx0 > 0) CHECK("C03,C02", cfg_qstring[keep_at] == keep, "bytes accumulated earlier are untouched");
 		CHECK("C02", qstring_index <= qstring_len && (cfg_qstring != NULL || qstring_len == 0), "the scratch buffer stays well-formed (write index within the allocation)");
 		CHECK("C02", cfg_qstring == NULL || __CPROVER_OBJECT_SIZE(cfg_qstring) >= qstring_len + 1, "the scratch buffer always has room for a terminating NUL beyond its nominal length (trimming and closing read and write that byte)");
